@@ -76,7 +76,7 @@ class BaseSliver(ABC):
 
     def set_name(self, resource_name: str):
         assert(resource_name is None or isinstance(resource_name, str))
-        m = re.match(self.NAME_REGEX, resource_name)
+        m = re.fullmatch(self.NAME_REGEX, resource_name)
         if not m:
             raise ValueError(f"Sliver name {resource_name} doesn't match the expected "
                              f"regular expression {self.NAME_REGEX}")
